@@ -220,9 +220,9 @@ Definition claim_kind (a : ADef) : akind :=
   if is_actions (ad_label a) then KCbor
   else if is_exif (ad_label a) || is_metadata (ad_label a) || is_creative_work (ad_label a) then KJson
   else if ad_json a then KJson else KCbor.
-(* the CreativeWork arm calls claim.add_assertion(&cw): the created flag of the definition is not consulted; every other
-   arm of the generated space passes manifest_assertion.created() *)
-Definition claim_created (a : ADef) : bool := if is_creative_work (ad_label a) then false else ad_created a.
+(* every arm of the generated space (user, actions, stds.exif, metadata and — since fix 937eabecd — CreativeWork) passes
+   manifest_assertion.created() *)
+Definition claim_created (a : ADef) : bool := ad_created a.
 
 Fixpoint index_from {A} (k : nat) (l : list A) : list (nat * A) :=
   match l with [] => [] | x :: t => (k, x) :: index_from (S k) t end.
